@@ -25,8 +25,21 @@
 // by-name references to *absent* cells) every answer between the closure without and the closure
 // with by-name edges is accepted and the comparison is counted in `skipped_out_of_quantifier`.
 //
+// Operations are enabled only while they keep the library inside the property's quantifier: cell
+// names stay unique among the members and everything reachable from them, replacement objects are
+// fresh, no cycle can arise (pool cells have no by-pointer references).
+// Two kinds of disagreement are reported as violations WITHOUT stopping the search below them (the
+// observed value is adopted by the model, so one root cause cannot hide later failures and cannot
+// cascade into secondary reports): raw-cell dependency lists that still designate the replaced-out
+// raw cell after replace_cell (class rawdep-stale) and the library's properties after
+// Library::copy_from (class copy-library-properties).  Every other disagreement poisons the state
+// (it is not expanded).
+//
 // Nothing is sampled: every enabled operation of the alphabet is applied in every reached state.
+// Development aids: C16_DEPTH=<n> overrides the depth, C16_BENCH=1 times make/verify/canon.
 #include <gdstk/gdstk.hpp>
+
+#include <math.h>
 
 #include <map>
 #include <set>
@@ -1256,13 +1269,32 @@ int main(int argc, char** argv) {
     int depth = T ? 5 : 3;
     if (getenv("C16_DEPTH")) depth = atoi(getenv("C16_DEPTH"));
     run.note(fmt("alphabet: %d operations per state (disabled ones are skipped); depth %d from each of 6 initial libraries", GraphSys(0).nops(), depth));
-    const int order[6] = {5, 2, 4, 0, 3, 1};  // smallest state spaces first
+    // Scheduling only (no effect on what a completed bound means): the searches run smallest first.
+    // WEIGHT = measured relative cost of a depth-5 search (transitions, init5 = 1); one more level
+    // costs about GROWTH times the levels before it.  A level that is cut by the deadline is lost
+    // entirely, so before each search the harness predicts (from the time per weight unit measured
+    // on the searches already finished in this run) whether the requested depth fits into the time
+    // that remains after reserving one level less for every search still to come; if it does not,
+    // the depth of this search is lowered and the bound that is reported says so.
+    const int order[6] = {5, 2, 4, 0, 3, 1};
+    const double WEIGHT[6] = {9.2, 15.5, 3.1, 8.6, 4.6, 1.0};  // indexed by init (init1: extrapolated from depth 4)
+    const double GROWTH = 7.0;
+    double rate = 0, done_weight = 0, done_time = 0;  // seconds per weight unit
     for (int n = 0; n < 6; n++) {
         int k = order[n];
         GraphSys s(k);
         double saved = run.deadline_s;
-        double slice = (saved - run.elapsed()) / (6 - n);
-        run.deadline_s = std::min(saved, run.elapsed() + slice);
+        int d = depth;
+        double avail = saved - run.elapsed();
+        if (rate > 0) {
+            auto cost = [&](int init, int dd) { return WEIGHT[init] * rate * pow(GROWTH, dd - 5); };
+            double reserve = 0;
+            for (int m = n + 1; m < 6; m++) reserve += cost(order[m], depth - 1);
+            while (d > 1 && cost(k, d) * 1.3 > avail - reserve) d--;
+            avail = std::max(avail - reserve, cost(k, d) * 1.3);
+        } else
+            avail = avail / (6 - n);
+        run.deadline_s = std::min(saved, run.elapsed() + avail);
         double t0 = now();
         if (T) {
             // vf::bfs records every canonical state as a distinct outcome; at depth 5 that is millions of
@@ -1271,10 +1303,20 @@ int main(int argc, char** argv) {
             run.outcomes_sent.clear();
             for (int i = 0; i < 19801; i++) run.outcomes_sent.insert("pad" + std::to_string(i));
         }
-        BfsResult r = bfs(run, s, s.sub, depth);
+        BfsResult r = bfs(run, s, s.sub, d);
         run.deadline_s = saved;
-        run.note(fmt("%s (%s): depth completed %d of %d, %lld states, %lld transitions, %lld histories expanded, %.1f s%s", s.sub.c_str(), GraphSys::init_name(k), r.depth_completed, depth,
-                     (long long)r.states, (long long)r.transitions, (long long)r.histories, now() - t0, r.complete ? "" : " (cut by the time slice)"));
+        double dt = now() - t0;
+        if (r.complete && r.depth_completed == d) {
+            done_weight += WEIGHT[k] * pow(GROWTH, d - 5);
+            done_time += dt;
+            rate = done_time / done_weight;
+        }
+        run.note(fmt("%s (%s): depth completed %d (requested %d, scheduled %d), %lld states, %lld transitions, %lld histories expanded, %.1f s%s", s.sub.c_str(), GraphSys::init_name(k), r.depth_completed, depth, d,
+                     (long long)r.states, (long long)r.transitions, (long long)r.histories, dt, r.complete ? "" : " (cut by the time slice)"));
+        if (d < depth) {
+            run.count("searches_scheduled_below_requested_depth");
+            run.note(fmt("%s: depth %d did not fit into the remaining time on this machine (predicted %.0f s, %.0f s left); depth %d was searched instead", s.sub.c_str(), depth, WEIGHT[k] * rate * 1.3, saved - run.elapsed() + dt, d));
+        }
     }
     return run.finish();
 }
